@@ -565,6 +565,9 @@ func (t *queryTerm) QueryConditions(pc *parserContext) (ConditionsSet, error) {
 						SubQueries: []string{t.SubQuery, e.Variable.Sub},
 						Mask:       flagsStreamProtocol,
 					}).invert()...)
+				} else {
+					// a stream's protocol always equals itself: this alternative is true
+					conds = append(conds, Conditions{})
 				}
 				continue
 			}
